@@ -278,6 +278,10 @@ func (h *heap) compareAll() error {
 	return nil
 }
 
+// scribble is written over results the library handed out (Slice, Dict, Keys, Values) after they were
+// compared; if the library kept a reference to such a result, the next comparison sees it.
+type scribble struct{}
+
 func (h *heap) compareNode(n *mnode) error {
 	if n.isList {
 		l := n.impl.(at.List)
@@ -305,6 +309,10 @@ func (h *heap) compareNode(n *mnode) error {
 		}
 		if l.TypeOf(len(n.elems)) != at.TypeUndefined || l.TypeOf(-1) != at.TypeUndefined {
 			return errf("list#%d: TypeOf outside 0..n-1 is not TypeUndefined", n.id)
+		}
+		// the caller owns what Slice() returned: overwriting it must not show in any later observation
+		for i := range sl {
+			sl[i] = scribble{}
 		}
 		return nil
 	}
@@ -370,6 +378,17 @@ func (h *heap) compareNode(n *mnode) error {
 		if !found {
 			return errf("object#%d: Values() lacks an entry for field %+q = %v (Values: %s)", n.id, k, e, clip(vals.String(), 200))
 		}
+	}
+	// the caller owns Dict(), Keys() and Values(): changing them must not show in any later observation
+	for k := range dict {
+		dict[k] = scribble{}
+	}
+	dict["\x00scribble"] = 1
+	keys.Add("\x00scribble")
+	vals.Add("\x00scribble")
+	if keys.Count() > 1 {
+		keys.Replace(0, "\x00scribble0")
+		vals.Replace(0, "\x00scribble0")
 	}
 	return nil
 }
